@@ -337,6 +337,18 @@ func constructMatchStyleRegex(s *Segment) (*regexp.Regexp, []string, error) {
 	}
 	buf.WriteString("$")
 
+	// A bind parameter can only be used once within the segment.
+	seen := make(map[string]struct{}, len(binds))
+	for _, bind := range binds {
+		if bind == "" {
+			continue
+		}
+		if _, exists := seen[bind]; exists {
+			return nil, nil, errors.Errorf("duplicated bind parameter %q in position %d", bind, s.Pos.Offset)
+		}
+		seen[bind] = struct{}{}
+	}
+
 	re, err := regexp.Compile(buf.String())
 	if err != nil {
 		return nil, nil, errors.Wrapf(err, "compile regexp near position %d", s.Pos.Offset)
